@@ -74,7 +74,7 @@ func find(name string) (scen.Scenario, bool) {
 
 func cfgOf(s scen.Scenario) explore.Config {
 	c := explore.Config{Name: s.Name, Root: s.Root, Horizon: s.Horizon, MaxSteps: s.MaxSteps,
-		PoolPoints: s.PoolPoints, DelayBound: s.DelayBound, NoPrune: *noPrune,
+		PoolPoints: s.PoolPoints, DelayBound: s.DelayBound, LazyTime: s.LazyTime, NoPrune: *noPrune,
 		Bounds: explore.Bounds{Sched: s.Sched, Fault: s.Fault}}
 	if *schedB >= 0 {
 		c.Bounds.Sched = *schedB
